@@ -473,7 +473,37 @@ def F_order(ctx, lib):
             why = flow.show(cr)[:200]
         else:
             why = flow.show(ret)[:200]
-        ctx.ob(rule, "formula_order", ok, where=b.where(), expected="formulaname.iter().map(|name| *dict.get(name)).collect()", found=why)
+            # the same map written as a loop: `for name in formulaname.borrow().iter() { order.push(*dict.read().get(name)) }; order` - one loop left only when the
+            # iterator is exhausted, one push per round of the looked-up index of that round's name, into the vector that is returned
+            calls, dd = flow.all_call_exprs(b)
+            pushes = [(bb, t, e) for bb, t, ci, e in calls if e[0] == "call" and flow.last(e[2]) == "push" and "Vec" in e[1]]
+            nexts = [e for bb, t, ci, e in calls if e[0] == "call" and flow.last(e[2]) == "next" and "d:ForLoop" in (t.get("exp") or [])]
+            loops = b.natural_loops()
+            exits = set()
+            for head, blocks in loops.items():
+                for bb in blocks:
+                    for s_ in b.succs(bb):
+                        if s_ not in blocks and not (b.blocks[s_]["term"]["k"] == "unreachable" and not b.blocks[s_]["stmts"]):
+                            exits.add((bb, s_))
+            if len(pushes) == 1 and len(nexts) == 1 and len(loops) == 1 and len(exits) == 1:
+                bbp, tp, ep = pushes[0]
+                val = ep[3][1]
+                m2 = match(val, C("expect", C("get", C("expect", C("read", F(P(1), "dict")), ANY), V("name")), ANY))
+                src_ok = match(nexts[0][3][0], C("into_iter", C("iter", C("borrow", F(P(1), "formulaname"))))) is not None or \
+                    match(nexts[0][3][0], C("iter", C("borrow", F(P(1), "formulaname")))) is not None
+                name_ok = m2 is not None and bool(flow.find(m2["name"], lambda n_: n_ == nexts[0]))
+                # receiver of the push = the returned local
+                recv_l = None
+                a0 = tp["args"][0]
+                if a0["k"] in ("move", "copy") and not a0["pl"]["p"]:
+                    for _, _, s_ in b.statements():
+                        if s_["k"] == "assign" and s_["pl"]["l"] == a0["pl"]["l"] and not s_["pl"]["p"] and s_["rv"]["k"] == "ref" and not s_["rv"]["pl"]["p"]:
+                            recv_l = s_["rv"]["pl"]["l"]
+                ret_l = [s_["rv"]["o"]["pl"]["l"] for _, _, s_ in b.statements() if s_["k"] == "assign" and s_["pl"]["l"] == 0 and not s_["pl"]["p"]
+                         and s_["rv"]["k"] == "use" and s_["rv"]["o"]["k"] in ("move", "copy") and not s_["rv"]["o"]["pl"]["p"]]
+                ok = src_ok and name_ok and recv_l is not None and ret_l == [recv_l] and bbp in loops[next(iter(loops))]
+                why = "loop form: source %s, looked-up name is the round's item %s, push into the returned vector %s" % (src_ok, name_ok, ret_l == [recv_l])
+        ctx.ob(rule, "formula_order", ok, where=b.where(), expected="formulaname.iter().map(|name| *dict.get(name)).collect() (or the same loop)", found=why)
     except LookupError as e:
         ctx.lost(rule, "formula_order", str(e))
     try:
